@@ -491,7 +491,7 @@ func genHostCase(r *lib.Rng) *Case {
 	if c.Checker == "default" && order == 1 {
 		order = []int{0, 2}[r.Intn(2)] // see the file comment: no content before the tool call with the default checker
 	}
-	st.Chunks = genChunks(r, &st, order)
+	st.Chunks = genChunks(r, c, &st, order)
 	h.Reply = st
 	return c
 }
